@@ -200,12 +200,22 @@ def pytest_configure(config):
 
 
 def is_xfail(request):
-    if not "xfail" in request.keywords:
-        return False
-    xfail = request.keywords["xfail"]
-    if xfail.args and xfail.args[0] == False:
-        return False
-    return True
+    # request.keywords contains also the names of the parent nodes (a directory
+    # with the name xfail), iter_markers() returns only the markers
+    for mark in request.node.iter_markers(name="xfail"):
+        if "condition" in mark.kwargs:
+            conditions = (mark.kwargs["condition"],)
+        else:
+            conditions = mark.args
+
+        # like pytest: no condition means always, string conditions are
+        # evaluated by pytest and are handled like a true condition here
+        if not conditions or any(
+            True if isinstance(condition, str) else bool(condition)
+            for condition in conditions
+        ):
+            return True
+    return False
 
 
 @pytest.fixture(autouse=True)
